@@ -253,9 +253,11 @@ fn gen_main(args: &[String]) {
     let mut rng = Rng::new(seed ^ prop.bytes().fold(0u64, |a, b| a.wrapping_mul(131).wrapping_add(b as u64)));
 
     let mut emitted: Vec<Emitted> = Vec::new();
+    // seconds allowed to one evaluation before it counts as a hang (shrinking uses less)
+    let tmo: u64 = std::env::var("JLH_TIMEOUT").ok().and_then(|t| t.parse().ok()).unwrap_or(20);
     let simple = |cases: Vec<Case>, emitted: &mut Vec<Emitted>| {
         let work: Vec<Work> = cases.iter().map(|c| c.work.clone()).collect();
-        let obs = runner::run_all(&exe, &work, 20);
+        let obs = runner::run_all(&exe, &work, tmo);
         for (c, o) in cases.iter().zip(obs.iter()) {
             emitted.push(emit_simple(c, o));
         }
@@ -393,6 +395,39 @@ fn gen_main(args: &[String]) {
                     });
                 }
                 let threads = 16;
+                // lines logged concurrently arrive whole: the multiset of lines written by 16
+                // threads is 16 times the lines of the calls made one by one
+                {
+                    let lp: Vec<(Value, Value)> = (0..6)
+                        .map(|k| {
+                            let payload: Vec<Value> = (0..150 + 40 * k).map(|_| json!(k)).collect();
+                            (json!({"log": {"var": ""}}), json!({"payload": payload, "who": format!("call-{}", k), "text": "é".repeat(100 + k)}))
+                        })
+                        .collect();
+                    let mut want: Vec<String> = Vec::new();
+                    for (r, d) in lp.iter() {
+                        if let Obs::Ok { logs, .. } = runner::run_all(&exe, &[Work::Apply { rule: r.clone(), data: d.clone() }], 20).remove(0) {
+                            for _ in 0..threads {
+                                want.extend(logs.iter().cloned());
+                            }
+                        }
+                    }
+                    let o = runner::run_all(&exe, &[Work::Threads { calls: lp.clone(), threads }], 120).remove(0);
+                    let mut got: Vec<String> = match &o { Obs::Multi { logs, .. } => logs.clone(), _ => Vec::new() };
+                    want.sort();
+                    got.sort();
+                    let whole = want == got && !want.is_empty();
+                    let iso1: Vec<Obs> = lp.iter().map(|(r, d)| runner::run_all(&exe, &[Work::Apply { rule: r.clone(), data: d.clone() }], 20).remove(0)).collect();
+                    let iso1_term = list_term(&iso1.iter().map(obs1_of_obs).collect::<Vec<_>>());
+                    emitted.push(Emitted {
+                        work_term: format!("(WThreads {} {} {}%nat)", pool_term(&lp), iso1_term, threads),
+                        obs_term: if whole { obs_term(&o) } else { "ObsAbort".to_string() },
+                        tag: "threads-log".into(),
+                        record: json!({"tag": "threads-log", "round": round, "threads": threads, "lines_whole": whole, "lines_expected": want.len(), "lines_seen": got.len(),
+                                       "torn": got.iter().filter(|l| !want.contains(l)).take(3).collect::<Vec<_>>(), "obs": obs_json(&o)}),
+                        crashed: !whole || is_crash(&o),
+                    });
+                }
                 let o = runner::run_all(&exe, &[Work::Threads { calls: pool.clone(), threads }], 120).remove(0);
                 emitted.push(Emitted {
                     work_term: format!("(WThreads {} {} {}%nat)", pool_term(&pool), iso_term, threads),
@@ -472,7 +507,7 @@ fn gen_main(args: &[String]) {
             // (C17's cases are sequences: they are kept whole, in order)
             let mut picked = plain_cases(&from, &mut rng, if from == "C17" { count } else { count * 4 }, thorough);
             let step = (picked.len() / count.max(1)).max(1);
-            picked = picked.into_iter().step_by(step).take(count).collect();
+            picked = head_and_sample(picked, step, count);
             let picked = if from == "C17" { picked } else { with_lifted(picked, &mut rng) };
             for e in boundary::cli_from_plain(&mut rng, &picked) {
                 emitted.push(Emitted { work_term: e.work_term, obs_term: e.obs_term, tag: e.tag, record: e.record, crashed: e.crashed });
@@ -481,7 +516,7 @@ fn gen_main(args: &[String]) {
         "C19" if !from.is_empty() && get_arg(args, "--stage", "cases") == "cases" => {
             let mut picked = plain_cases(&from, &mut rng, if from == "C17" { count } else { count * 4 }, thorough);
             let step = (picked.len() / count.max(1)).max(1);
-            picked = picked.into_iter().step_by(step).take(count).collect();
+            picked = head_and_sample(picked, step, count);
             let picked = if from == "C17" { picked } else { with_lifted(picked, &mut rng) };
             boundary::py_cases_from_plain(&picked, &format!("{}/py_cases.jsonl", out_dir));
             println!("{{\"stage\":\"cases\"}}");
@@ -574,6 +609,18 @@ fn with_lifted(picked: Vec<(Value, Value, String)>, rng: &mut Rng) -> Vec<(Value
             out.push(l);
         }
     }
+    out
+}
+
+/// the head of a generator's output (its fixed and regression cases) in full, then an even
+/// sample of the rest
+fn head_and_sample(cases: Vec<(Value, Value, String)>, step: usize, count: usize) -> Vec<(Value, Value, String)> {
+    if step <= 1 {
+        return cases.into_iter().take(count).collect();
+    }
+    let head = (count / 3).min(cases.len());
+    let mut out: Vec<(Value, Value, String)> = cases[..head].to_vec();
+    out.extend(cases[head..].iter().step_by(step).take(count - head).cloned());
     out
 }
 
